@@ -270,6 +270,29 @@ def build_matrix_builder(kind: str) -> LayerBuilder:
                 d = b.dop(f"f{k}", b.slt(base, bits, hilo=hilo))
                 _svc2(b, k, f"f{k}", [b.value("v", d)], [b.value("v", d), b.value("post", u8)])
                 k += 1
+    elif kind == "structs":
+        u16 = b.dop("m_u16", b.slt(bits=16))
+        for bs in (None, 2, 4):
+            item = b.structure(f"item{k}", [b.value("a", u8)], byte_size=bs)
+            pair = b.structure(f"pair{k}", [b.value("a", u8), b.value("b", u16)], byte_size=None if bs is None else bs + 2)
+            # a structure that does not sit at offset 0 of its parent, followed by another parameter
+            _svc2(b, k, f"sa{k}", [b.value("pre", u8), b.value("z", item), b.value("post", u16)],
+                  [b.value("z", pair), b.value("post", u8)])
+            k += 1
+            nested = b.structure(f"nest{k}", [b.value("head", u8), b.value("in", item), b.value("tail", u8)])
+            _svc2(b, k, f"sn{k}", [b.value("n", nested), b.value("post", u8)], [b.value("pre", u16), b.value("n", nested)])
+            k += 1
+            for fk in ("eopdu", "static", "dynlen", "dynend"):
+                if fk == "eopdu":
+                    f = b.eopdu_field(f"f{k}", pair)
+                elif fk == "static":
+                    f = b.static_field(f"f{k}", pair, 2, (bs + 2) if bs else 3)
+                elif fk == "dynlen":
+                    f = b.dynlen_field(f"f{k}", pair, u8, offset=1)
+                else:
+                    f = b.dynend_field(f"f{k}", pair, u8, "255")
+                _svc2(b, k, f"sf{k}", [b.value("pre", u8), b.value("list", f)], [b.value("list", f)])
+                k += 1
     elif kind == "bad":
         # descriptions that violate the specification: illegal base type / encoding combinations and
         # bit lengths.  Strict mode reports them as errors, lenient mode downgrades them (C17 only).
@@ -290,7 +313,7 @@ def build_matrix_builder(kind: str) -> LayerBuilder:
     return b
 
 
-MATRIX_KINDS = ["minmax", "leading", "strings", "ints"]
+MATRIX_KINDS = ["minmax", "leading", "strings", "ints", "structs"]
 
 
 def build_matrix_layer(kind: str):
